@@ -68,6 +68,15 @@ func TestC08Liveness(t *testing.T) {
 	maxLen := lab.Scale(30, 60)
 	lab.Check(t, sub, 3000, 100000, func(rt *rapid.T) {
 		c, cfg := genBreakerConfig(rt)
+		// the breaker is rarely the only protection configured: in one case of three passive health checks are on as
+		// well (as in the shipped helios.yaml), so that failing backends are also ejected for a while - "whenever
+		// requests would succeed again" then means: backends answer well, and both the breaker timeout and the
+		// unhealthy windows are over
+		passiveTO := 0
+		if rapid.IntRange(0, 2).Draw(rt, "passive") == 0 {
+			passiveTO = rapid.SampledFrom([]int{1, 5, 60}).Draw(rt, "unhealthy_timeout")
+			cfg.HealthChecks.Passive = config.PassiveHealthCheckConfig{Enabled: true, UnhealthyThreshold: rapid.IntRange(1, 5).Draw(rt, "unhealthy_threshold"), UnhealthyTimeout: passiveTO}
+		}
 		if err := cfg.Validate(); err != nil {
 			sub.Count("config-rejected-by-validator", 1)
 			rt.Skip("configuration not accepted: " + err.Error())
@@ -142,7 +151,7 @@ func TestC08Liveness(t *testing.T) {
 			}
 			budget := c.ST + effMR + 4
 			hist = append(hist, "RECOVER")
-			time.Sleep(to + time.Millisecond)
+			time.Sleep(max(to, time.Duration(passiveTO)*time.Second) + time.Millisecond)
 			for j := 0; j < budget; j++ {
 				s, hit := req(100 + j)
 				hist = append(hist, fmt.Sprintf("req->%d", s))
@@ -151,7 +160,7 @@ func TestC08Liveness(t *testing.T) {
 				}
 			}
 			if st := publishedState(lb); st != "CLOSED" {
-				viol = fmt.Sprintf("all backends answer 200, timeout (%v) has passed and %d further requests were sent, but the breaker is still %s: traffic is locked out", to, budget, st)
+				viol = fmt.Sprintf("all backends answer 200, timeout (%v) has passed and %d further requests were sent, but the breaker is still %s: traffic is locked out (passive health checks: %+v)", to, budget, st, cfg.HealthChecks.Passive)
 				return
 			}
 			for j := 0; j < 3; j++ {
@@ -168,7 +177,10 @@ func TestC08Liveness(t *testing.T) {
 		}
 		labels := []string{"start-" + startState, fmt.Sprintf("st%d-mr%s", c.ST, mrl)}
 		labels = append(labels, "traffic="+trafficKind)
-		sub.Case(map[string]any{"cfg": c, "strategy": cfg.LoadBalancer.Strategy, "backends": len(cfg.Backends), "traffic": trafficKind, "history": hist}, startState != "CLOSED", labels...)
+		if passiveTO > 0 {
+			labels = append(labels, "passive-health-checks-on")
+		}
+		sub.Case(map[string]any{"cfg": c, "passive": cfg.HealthChecks.Passive, "strategy": cfg.LoadBalancer.Strategy, "backends": len(cfg.Backends), "traffic": trafficKind, "history": hist}, startState != "CLOSED", labels...)
 		if viol != "" {
 			rt.Fatalf("cfg %+v strategy %s history %v: %s", c, cfg.LoadBalancer.Strategy, hist, viol)
 		}
